@@ -4,10 +4,10 @@ package smt
 
 import (
 	"fmt"
-	"sync/atomic"
 	"math/bits"
 	"strconv"
 	"strings"
+	"sync/atomic"
 )
 
 type Op uint8
